@@ -2,6 +2,7 @@
 From Coq Require Import ZArith NArith List Bool Reals Floats.
 From PV Require Import Num NumR model.Optimiser model.OptSpec proofs.OptStruct proofs.OptLoop proofs.OptConv proofs.FloatFacts proofs.RealFacts.
 From PV Require Import model.Cli gen.GenCli proofs.CliFacts.
+From PV Require Import gen.GenFns proofs.SourceFacts.
 
 Theorem C20_work_bounds :
   forall (NN : Num) (c : cfg NN), (work NN c <= steps NN c)%N /\ (inner NN c <> 0%N -> (steps NN
@@ -90,4 +91,27 @@ Theorem C20_cli_stage1_built :
     1000%N /\ inner NN c = N.min (b_inner NN (sb NN u)) 1000 /\ conv NN c = None.
 Proof. exact cli_stage1_built. Qed.
 Print Assumptions C20_cli_stage1_built.
+
+
+Theorem C20_inner_steps_is_source :
+  forall (NN : Num) (fpow : carrier NN -> carrier NN -> carrier NN) (b : builder NN),
+    gen_inner_steps NN b = inner NN (build NN fpow b).
+Proof. exact inner_steps_is_source. Qed.
+Print Assumptions C20_inner_steps_is_source.
+
+Theorem C20_loops_is_source :
+  forall (NN : Num) (c : cfg NN), gen_loops NN c = loops_of (steps NN c) (inner NN c).
+Proof. exact loops_is_source. Qed.
+Print Assumptions C20_loops_is_source.
+
+Theorem C20_converged_is_source :
+  forall (NN : Num) (cur start eps : carrier NN), gen_converged NN cur start eps = (cur - start
+    <? eps)%num.
+Proof. exact converged_is_source. Qed.
+Print Assumptions C20_converged_is_source.
+
+Theorem C20_source_translated :
+  gen_fns_problem = String.EmptyString.
+Proof. exact source_translated. Qed.
+Print Assumptions C20_source_translated.
 
